@@ -112,7 +112,7 @@ def first_match_cases(rng, tier):
     paths = ["/", "/a", "/a/1", "/a/b", "/a/x/y", "/b", "", "/a/", "/axb", "/a.b", "/a+b", "/aab", "/(a)", "/a/1\n",
              "/a}}b", "/a}b", "/{{x", "/{x", "/a}b/7", "/ab/7",
              "/p/1.5/usd", "/p/15/usd", "/s/2.25/3", "/s/2/3", "/d/1.5/2.5", "/d/1/2"]
-    tables = []
+    tables = [("/a/{x:int}", "/a/{x:int}"), ("/a", "/a/b", "/a"), ("/{y:any}", "/a", "/{y:any}"), ("/a/{x}", "/a/{x:int}", "/a/{x}")]
     for n in (1, 2, 3):
         allp = list(itertools.permutations(pats, n))
         tables += allp if len(allp) <= 300 else rng.sample(allp, min(len(allp), 150 if tier == "quick" else 1200))
